@@ -79,8 +79,10 @@ class BlockingExecutor(Executor):
             return self.complete_value(
                 field_definition.type, nodes, path, info, resolved
             )
-        except CoercionError as err:
-            # Invalid directive arguments in the sub selection.
+        except (CoercionError, ResolverError) as err:
+            # Invalid directive arguments in the sub selection or a resolver
+            # error raised lazily while the resolved value is consumed (e.g. by
+            # a generator).
             self.add_error(err, path, node)
             return None
 
